@@ -58,10 +58,12 @@ pub(crate) struct PidIterator<'a> {
 
 impl<'a> PidIterator<'a> {
     fn new(data: &'a [u8], endianness: Endianness) -> Self {
+        // The parameters start behind the 4 byte encapsulation header. Read as a parameter the header of a
+        // big endian list (00 02 00 00) would be PID_PARTICIPANT_LEASE_DURATION with length 0
         Self {
             data,
             endianness,
-            position: 0,
+            position: 4,
         }
     }
 }
